@@ -2,9 +2,9 @@ package main
 
 import (
 	"fmt"
-	"os"
 	"go/token"
 	"go/types"
+	"os"
 	"strings"
 
 	"golang.org/x/tools/go/ssa"
@@ -316,6 +316,43 @@ func checkCompactionTables(p *Program, r *Report, wantExpiry, wantTomb bool) {
 			}
 		}
 	}
+	// ERR-PROPAGATE: a path on which reading the inputs or writing the output
+	// failed does not return success (the truncated table would be installed
+	// and the inputs deleted)
+	nErr, errBad := 0, ""
+	var errW []string
+	for _, s := range a.c.Samples {
+		if s.Kind != "ret" || s.Panic || len(s.Vals) == 0 {
+			continue
+		}
+		ret := s.Vals[len(s.Vals)-1]
+		for k, v := range s.St.facts {
+			t := s.St.fterm[k]
+			if v || t == nil || t.Op != "eq" || len(t.Args) != 2 {
+				continue
+			}
+			var e *Term
+			if t.Args[0].isNilConst() {
+				e = t.Args[1]
+			} else if t.Args[1].isNilConst() {
+				e = t.Args[0]
+			}
+			if e == nil || e.Op != "extract" || e.Typ == nil || types.TypeString(e.Typ, nil) != "error" || len(e.Args) == 0 || e.Args[0].Op != "call" {
+				continue
+			}
+			nErr++
+			if s.St.truth(tEq(ret, tNil)) != 0 {
+				errBad = e.Args[0].Aux
+				errW = witnessOf(p, s.St.trace)
+			}
+		}
+	}
+	if errBad != "" {
+		r.violate("ERR-PROPAGATE", fk+" / a failed read or write fails the compaction", p.pos(a.fn.Pos()), "a path on which "+errBad+" returned an error can return nil: the partially written table is then committed and the source tables are deleted", errW)
+	} else {
+		r.ok("ERR-PROPAGATE", fk+" / a failed read or write fails the compaction", fmt.Sprintf("every one of %d error outcomes on exit paths reaches a non-nil return", nErr))
+	}
+	r.floor("ERR-PROPAGATE", nErr, 4, "error outcomes of iterator / writer calls on exit paths of the rewrite function")
 	if len(a.rawViol) > 0 {
 		r.violate("COMPACT-RAW", fk+" / compaction reads the raw merged view", a.rawViol[0], "the merged view used for compaction has deletion suppression switched on: tombstones would be lost", nil)
 	} else {
